@@ -98,6 +98,8 @@ static const Scenario kScenarios[] = {
             "cfg.in extra.h src src2", "out out2", { { "cfg.h", "", KEEP_IF_SAME | HALVE, NULL }, { NULL } } },
   /* 43 */ { "pruned_depfile_dir", { RULES "rule ccdd\n  command = cc -MD $in -o $out\n  depfile = deps/$out.d\n  deps = gcc\nbuild a.o: ccdd a.c\nbuild pruned: cc a.o\nbuild b.o: ccdd b.c || pruned\nbuild obj/c.o: ccdd c.c || pruned\n", NULL, NULL },
             "a.c b.c c.c hdr", "b.o obj/c.o", { { "a.o", "hdr", 0, NULL }, { "b.o", "hdr", 0, NULL }, { "obj/c.o", "hdr", 0, NULL }, { "pruned", "", REMOVES_EMPTY_DIRS, NULL }, { NULL } } },
+  /* 44 */ { "dyndep_input_also_order_only", { RULES "rule mkdd\n  command = scan $in > $out\nbuild dd: mkdd ddsrc\nbuild h2: cc s\nbuild out: cc in || dd h2\n  dyndep = dd\nbuild x: cc out\n", NULL, NULL },
+            "ddsrc s in", "x out", { { "dd", "", 0, "ninja_dyndep_version = 1\nbuild out: dyndep | h2\n" }, { "out", "h2", 0, NULL }, { NULL } } },
 };
 #ifndef SCENARIO
 #define SCENARIO 0
